@@ -4,6 +4,11 @@
 // stdin (blank lines, `#…` and `engine=…` lines ignored):
 //   mode plain | mode elt
 //   task <id>: <subs>      body of task <id> (0..255)
+//   dtor <id>: <subs>      what the DESTRUCTION of task <id>'s functor object does: every functor submitted for such a task
+//                          (q / r) is the only owner of a shared object whose destructor prints `dtor <id>` and executes
+//                          <subs> on the loop — on whatever thread the last reference dies (the vector element inside
+//                          doPendingFunctors(), the by-value parameter of an inline runInLoop()).  A task started by the
+//                          pipe's read callback (p<id>) is a plain function call: no functor object, no `dtor`.
 //   pre: <subs>            what the loop's owner does before loop() (elt: inside the ThreadInitCallback)
 //   thread <k>: <subs>     program of thread k (plain: k >= 1 foreign threads; elt: only k = 0)
 //   follow <k k k …>       directed schedule: which thread performs the next visible event
@@ -14,12 +19,15 @@
 //         ids of q/r: 0..65535 (a task without a `task` line has an empty body), of p and `task`: 0..255;
 //         qburst<first>x<count> = q<first> q<first+1> … (count calls of queueInLoop, count <= 20000): shorthand of the
 //         case language only, expanded when the line is read — trace and model see the single calls
-// Events: point <name> | exec <id> | wakeup | wakeread | post <id> | started | started null | joined | returned |
-//   destroyed | uaf   (`started null`: startLoop() returned NULL; later ops of T0 on the loop are skipped)
+// Events: point <name> | exec <id> | dtor <id> | wakeup | wakeread | post <id> | started | started null | joined | returned |
+//   destroyed | uaf   (`started null`: startLoop() returned NULL; later ops of T0 on the loop are skipped;
+//   `dtor <id>`: the destructor body of task <id>'s functor object starts, printed by the thread on which the object dies)
 // stdout: `T<k> <event>` lines, `# …` comments, then `done` | `blocked T0:<st> …`, then `--`.
 //   comments for the trace oracle (not compared with the model): `# T<k> call q|r <id>` / `# T<k> ret q|r <id>`,
 //   `# T<k> call quit|startLoop|destroy` / `# T<k> ret …` around every API call (`ret startLoop ok|null|other`), `# T<k> leave <id>` at the end of
-//   a task body (its beginning is the event `T<k> exec <id>`).
+//   a task body (its beginning is the event `T<k> exec <id>`), `# T<k> leave-dtor <id>` at the end of a destructor body
+//   (its beginning is the event `T<k> dtor <id>`), `# T<k> dtor-skipped <id>`: a functor object that was still queued when
+//   the EventLoop itself was destroyed died inside ~EventLoop — its body is not executed (there is no loop to talk to).
 //
 // Switch points of the scheduler beyond detsched's own (mutex, condition, named points, poll, create/join/exit): after
 // every wake-up write (`harness:afterWakeup`) and immediately before the read of the wake-up descriptor
@@ -52,6 +60,7 @@
 #include <sys/syscall.h>
 
 #include <functional>
+#include <memory>
 #include <set>
 #include <string>
 #include <vector>
@@ -67,6 +76,7 @@ typedef std::vector<Sub> Subs;
 
 bool g_elt = false;                       // mode
 Subs g_task[256];
+Subs g_dtor[256];                         // destructor body of what task <id>'s functor object owns (empty: owns nothing)
 Subs g_pre;
 std::vector<Subs> g_thread;               // index = k
 std::vector<int> g_follow;
@@ -237,6 +247,7 @@ namespace {
 
 // ------------------------------------------------------------------------------------------ program
 void execTask(int id);
+muduo::net::EventLoop::Functor makeFunctor(int id);
 
 muduo::net::EventLoop* targetLoop() {
   if (g_elt && ds::self() <= 0) return g_loopPtr;
@@ -250,14 +261,14 @@ void doSub(const Sub& s) {
     case Sub::Q: {
       muduo::net::EventLoop* l = targetLoop();
       note("call q %d", s.id);
-      if (l) l->queueInLoop(std::bind(&execTask, s.id));
+      if (l) l->queueInLoop(makeFunctor(s.id));
       note("ret q %d", s.id);
       break;
     }
     case Sub::R: {
       muduo::net::EventLoop* l = targetLoop();
       note("call r %d", s.id);
-      if (l) l->runInLoop(std::bind(&execTask, s.id));
+      if (l) l->runInLoop(makeFunctor(s.id));
       note("ret r %d", s.id);
       break;
     }
@@ -306,6 +317,34 @@ void execTask(int id) {
   say("exec %d", id);
   if (id >= 0 && id < 256) doSubs(g_task[id]);   // ids beyond the table: empty body
   note("leave %d", id);
+}
+
+// What the functor of a task with a `dtor` line owns.  The functor is handed to the loop by move, so the copy the loop
+// holds is the last owner: this destructor runs where the loop lets go of the functor object.
+struct Corpse {
+  int id;
+  explicit Corpse(int i) : id(i) {}
+  ~Corpse() {
+    if (g_finished) return;
+    if (g_destroyed) { note("dtor-skipped %d", id); return; }
+    say("dtor %d", id);
+    doSubs(g_dtor[id]);
+    note("leave-dtor %d", id);
+  }
+};
+struct TaskFunctor {
+  int id;
+  std::shared_ptr<Corpse> owned;
+  void operator()() const { execTask(id); }
+};
+muduo::net::EventLoop::Functor makeFunctor(int id) {
+  if (id >= 0 && id < 256 && !g_dtor[id].empty()) {
+    TaskFunctor f;
+    f.id = id;
+    f.owned = std::make_shared<Corpse>(id);
+    return muduo::net::EventLoop::Functor(std::move(f));
+  }
+  return std::bind(&execTask, id);
 }
 
 void onPipeReadable(muduo::Timestamp) {
@@ -481,7 +520,7 @@ void readInput() {
       g_schedule = parseInts(w, 1);
     } else if (head == "spurious") {
       g_spurious = true;
-    } else if (head == "task" || head == "pre" || head == "thread") {
+    } else if (head == "task" || head == "dtor" || head == "pre" || head == "thread") {
       size_t colon = line.find(':');
       if (colon == std::string::npos) fail("missing ':' in '" + line + "'");
       std::vector<std::string> hw = vh::words(line.substr(0, colon));
@@ -493,6 +532,7 @@ void readInput() {
         int id = 0;
         if (hw.size() != 2 || !parseId(hw[1], 0, &id)) fail("bad header '" + line.substr(0, colon) + "'");
         if (head == "task") g_task[id] = body;
+        else if (head == "dtor") g_dtor[id] = body;
         else {
           if (g_thread.size() <= static_cast<size_t>(id)) g_thread.resize(static_cast<size_t>(id) + 1);
           g_thread[static_cast<size_t>(id)] = body;
